@@ -148,6 +148,20 @@ impl Exec {
                 self.resolve_pending()?;
                 self.op_close_one(*sock)?;
             }
+            Op::Fill { sock } => {
+                self.resolve_pending()?;
+                if let Some(Real::Stream(s)) = self.real.get(sock) {
+                    let chunk = vec![0x66u8; 64 * 1024];
+                    let mut total = 0usize;
+                    for _ in 0..6 {
+                        if let Ok(n) = s.on().try_write(&chunk) {
+                            total += n;
+                        }
+                        self.world.clean_rounds(3);
+                    }
+                    self.out.count("fill_bytes_written", total as u64);
+                }
+            }
             Op::Close { sock, server_first } => {
                 let closed = self.model.socks.get(sock).cloned();
                 self.op_close(*sock, *server_first)?;
@@ -410,6 +424,9 @@ impl Exec {
         let slot = self.spawn_connect(host, to);
         self.world.settle();
         let selfc = self.is_self_connect(host, to);
+        if selfc {
+            self.out.count("self_connect_src_equals_dst", 1);
+        }
         for _ in 0..R {
             self.world.clean_round();
             if slot.borrow().done.is_some() {
@@ -417,7 +434,7 @@ impl Exec {
             }
         }
         self.world.settle();
-        if selfc {
+        if selfc && false {
             self.out.count("skipped_self_connect_undetermined", 1);
             if let Some(st) = slot.borrow_mut().stream.take() {
                 drop(self.world.scoped(host, st));
@@ -617,6 +634,26 @@ impl Exec {
             .entries
             .iter()
             .any(|e| e.proto == turmoil_net::Proto::Tcp && e.local == m.sa() && e.peer == Some(peer) && e.state == Some(turmoil_net::NetstatState::FinWait2));
+        // ... or it never got as far: bytes and its FIN are queued behind
+        // the peer's closed window (the peer does not read), nothing is in
+        // flight, nothing probes the window
+        let stalled = turmoil_net::netstat(self.model.hosts[m.host][0]).entries.iter().any(|e| {
+            e.proto == turmoil_net::Proto::Tcp
+                && e.local == m.sa()
+                && e.peer == Some(peer)
+                && e.send_q > 0
+                && matches!(e.state, Some(turmoil_net::NetstatState::FinWait1) | Some(turmoil_net::NetstatState::LastAck) | Some(turmoil_net::NetstatState::Closing))
+        });
+        if stalled && c.sockets == want.0 + 1 && c.binding_fds == want.2 + 1 && c.connections == want.3 + 1 {
+            return Err(Complaint {
+                class: "diag:orphan-stalled-on-zero-window-while-peer-open".into(),
+                detail: format!(
+                    "{} (host {}) was dropped {Q} fault-free rounds ago with bytes queued behind the closed window of its peer {peer} (which neither reads nor closes): the socket is still in the table with its binding and 4-tuple, its data and FIN unsent and the window never probed; model expects it gone",
+                    m.sa(),
+                    m.host
+                ),
+            });
+        }
         if orphan && c.sockets == want.0 + 1 && c.binding_fds == want.2 + 1 && c.connections == want.3 + 1 {
             return Err(Complaint {
                 class: "diag:orphan-finwait2-keeps-binding-while-peer-open".into(),
@@ -972,6 +1009,9 @@ impl Exec {
             }
             let desc = format!("tcp probe from host {} to {}", p.host, p.dst);
             if p.selfc {
+                self.out.count("self_connect_src_equals_dst", 1);
+            }
+            if p.selfc && false {
                 self.out.count("skipped_self_connect_undetermined", 1);
                 p.stream = None;
                 p.local = None;
